@@ -4,8 +4,9 @@
 //   after AsyncFileAppender::discard nothing is outstanding.
 // libFuzzer drives page size, total lengths (biased to the inline / page-table boundaries) and the
 // sputn/sputc/ostream chunking. On the first invocation of every process the target additionally
-// enumerates EVERY total length 0..(6+3*table_capacity)*page+2 for page sizes 32 and 64 (finite
-// sub-range, three chunkings each) and the boundary neighbourhoods for the other page sizes.
+// enumerates EVERY total length 0..(INLINE_PAGE_CAPACITY+3*table_capacity)*page+2 for page sizes 32 and 64
+// (finite sub-range, three chunkings each; INLINE_PAGE_CAPACITY is 14 on x86-64 where BABYLON_CACHELINE_SIZE is
+// 128, and 6 with 64-byte lines) and the boundary neighbourhoods for the other page sizes.
 #include <babylon/logging/async_file_appender.h>
 #include <babylon/logging/log_entry.h>
 // log_entry.cpp is compiled into this translation unit (the archive member is then not pulled in) because the
@@ -111,15 +112,17 @@ struct RecordingAllocator : public babylon::PageAllocator {
 };
 
 // ---- content pool -----------------------------------------------------------------------------
-constexpr size_t POOL = (size_t)5 << 20;
+constexpr size_t POOL = (size_t)2304 << 10;
 const std::string& pool() {
   static std::string* p = [] {
     auto* s = new std::string();
-    s->resize(POOL + 4096);
+    s->resize(POOL + 8192);
     uint64_t x = 0x9E3779B97F4A7C15ULL;
-    for (size_t i = 0; i < s->size(); i++) {
+    char* out = &(*s)[0];
+    for (size_t i = 0; i + 8 <= s->size(); i += 8) {
       x ^= x << 13; x ^= x >> 7; x ^= x << 17;
-      (*s)[i] = (char)(x >> 32);
+      uint64_t v = x * 0x2545F4914F6CDD1DULL;
+      memcpy(out + i, &v, 8);
     }
     return s;
   }();
@@ -136,7 +139,7 @@ size_t tables_of(size_t len, size_t ps) {
 }
 
 // ---- one entry: chunk plan ---------------------------------------------------------------------
-enum ChunkKind : uint8_t { K_PUTC, K_PUTN, K_SYNC, K_OS_WRITE, K_OS_PUT, K_OS_FLUSH };
+enum ChunkKind : uint8_t { K_PUTC, K_PUTN, K_SYNC, K_OS_WRITE, K_OS_PUT, K_OS_FLUSH, K_PUTN_REPEAT /* sputn(n) until the entry is complete */ };
 struct Chunk { ChunkKind kind; size_t n; };
 
 struct Built {
@@ -157,6 +160,8 @@ struct Env {
   AsyncFileAppender& appender = shared_appender();
   LogStreamBuffer buf;
   std::vector<struct ::iovec> iov;
+  std::vector<void*> sb, sh;
+  std::vector<Chunk> plan;
   explicit Env(size_t ps) {
     alloc.ps = ps;
     alloc.cache = &block_cache(ps);
@@ -166,7 +171,7 @@ struct Env {
 };
 
 // Streams pool()[off, off+len) through the buffer following `plan` (the remainder goes out in one sputn).
-Built build_entry(Env& e, const std::string& desc, size_t off, size_t len, const std::vector<Chunk>& plan) {
+void build_entry(Env& e, const std::string& desc, size_t off, size_t len, const std::vector<Chunk>& plan, Built& b) {
   const char* src = pool().data() + off;
   e.alloc.mark();
   e.buf.begin();
@@ -201,15 +206,16 @@ Built build_entry(Env& e, const std::string& desc, size_t off, size_t len, const
         if (done < len) { os.put(src[done]); done++; }
         break;
       case K_OS_FLUSH: os.flush(); break;
+      case K_PUTN_REPEAT:
+        while (done < len) putn(c.n, false);
+        break;
     }
   }
   if (done < len) putn(len - done, false);
-  Built b;
   b.entry = e.buf.end();
-  b.handed = e.alloc.handed;
+  b.handed.assign(e.alloc.handed.begin(), e.alloc.handed.end());
   b.off = off;
   b.len = len;
-  return b;
 }
 
 // The oracle for one finished entry; releases it through AsyncFileAppender::discard.
@@ -238,9 +244,10 @@ void check_and_discard(Env& e, const std::string& desc, Built& b, size_t others_
   if (carried != b.len)
     vfz::fail(desc, "entry of %zu bytes (page %zu): iovecs carry %zu bytes in %zu segments", b.len, ps, carried, e.iov.size());
   // (2) pages: iov_base multiset == pages handed out for this entry
-  std::vector<void*> bases;
-  for (auto& v : e.iov) bases.push_back(v.iov_base);
-  std::vector<void*> sb = bases, sh = b.handed;
+  std::vector<void*>&sb = e.sb, &sh = e.sh;  // scratch (ASan's allocator is the dominant cost otherwise)
+  sb.clear();
+  for (auto& v : e.iov) sb.push_back(v.iov_base);
+  sh.assign(b.handed.begin(), b.handed.end());
   std::sort(sb.begin(), sb.end());
   std::sort(sh.begin(), sh.end());
   for (size_t i = 1; i < sb.size(); i++)
@@ -261,16 +268,16 @@ void check_and_discard(Env& e, const std::string& desc, Built& b, size_t others_
 
 // ---- deterministic sweeps (first invocation of every process) ------------------------------------
 void sweep_one(Env& e, std::string& desc, size_t len, int chunking) {
-  std::vector<Chunk> plan;
+  std::vector<Chunk>& plan = e.plan;
+  plan.clear();
   if (chunking == 1) plan.push_back({K_PUTC, len});
-  else if (chunking == 2) {
-    for (size_t d = 0; d < len; d += 7) plan.push_back({K_PUTN, 7});
-  }
+  else if (chunking == 2) plan.push_back({K_PUTN_REPEAT, 7});
   char b[96];
   snprintf(b, sizeof b, "sweep page=%zu len=%zu chunking=%s", e.alloc.ps, len, chunking == 0 ? "one-sputn" : chunking == 1 ? "sputc" : "sputn(7)");
   desc = b;
-  Built bt = build_entry(e, desc, (len * 31) & 1023, len, plan);
-  check_and_discard(e, desc, bt, 0);
+  static Built* bt = new Built();
+  build_entry(e, desc, (len * 31) & 1023, len, plan, *bt);
+  check_and_discard(e, desc, *bt, 0);
 }
 
 void run_sweeps() {
@@ -292,13 +299,15 @@ void run_sweeps() {
     Env e(ps);
     size_t cap = table_capacity(ps);
     size_t kmax = ps <= 1024 ? 3 : 1;
+    bool big = ps >= 2048;
     std::vector<size_t> counts;
-    for (size_t n = 0; n <= INLINE + 2; n++) counts.push_back(n);
+    for (size_t n = 0; n <= INLINE + 2; n++)
+      if (!big || n <= 1 || n + 2 >= INLINE) counts.push_back(n);
     for (size_t k = 1; k <= kmax; k++)
       for (size_t d = 0; d < 3; d++) counts.push_back(INLINE - 1 + k * cap - 1 + d);
     std::string name = "boundary_sweep_page" + std::to_string(ps);
     for (size_t n : counts)
-      for (int d = -2; d <= 2; d++) {
+      for (int d = big ? -1 : -2; d <= (big ? 1 : 2); d++) {
         if (n == 0 && d < 0) continue;
         size_t len = n * ps + (size_t)d;
         sweep_one(e, desc, len, 0);
@@ -382,7 +391,7 @@ std::vector<Chunk> decode_plan(HDec& d, size_t ps, size_t len, std::string& desc
       case 12: c = {d.flip() ? K_OS_PUT : K_OS_FLUSH, 1}; break;
       default: c = {K_PUTN, d.u16()}; break;
     }
-    static const char* names[] = {"c", "n", "sync", "osw", "osput", "osflush"};
+    static const char* names[] = {"c", "n", "sync", "osw", "osput", "osflush", "nrep"};
     snprintf(b, sizeof b, " %s%zu", names[c.kind], c.n);
     desc += b;
     plan.push_back(c);
@@ -429,7 +438,8 @@ extern "C" int LLVMFuzzerTestOneInput(const uint8_t* data, size_t size) {
     snprintf(b, sizeof b, " | len=%zu(pages=%zu,tables=%zu) off=%zu:", len, pages_of(len, ps), tables_of(len, ps), off);
     desc += b;
     std::vector<Chunk> plan = decode_plan(d, ps, len, desc);
-    Built bt = build_entry(e, desc, off, len, plan);
+    Built bt;
+    build_entry(e, desc, off, len, plan, bt);
     size_t n = pages_of(len, ps), t = tables_of(len, ps);
     if (bt.handed.size() != n + t) vfz::label("alloc_count_differs_from_model");
     if (len == 0) vfz::label("len_zero");
